@@ -91,6 +91,16 @@ impl Sweep {
             },
             embed: false,
         });
+        // quote pairing across paragraphs, sentence structure around quotes
+        fams.push(Family {
+            name: "G1/quotes-and-paragraphs".into(),
+            fes: fe_idx(&fes, |f| f.name == "plain" || f.name == "markdown"),
+            generator: Gen::Strings {
+                atoms: strs(&["\"", "a", " ", "\n\n", "“", "."]),
+                max_len: t.pick(6, 7),
+            },
+            embed: false,
+        });
         let md = fe_idx(&fes, |f| {
             f.class == Class::Markdown || f.class == Class::GitCommit
         });
